@@ -21,6 +21,26 @@ ALLOWED_AXIOMS = {"propext", "Classical.choice", "Quot.sound"}
 FORBIDDEN = [r"\bsorry\b", r"\badmit\b", r"^\s*axiom\s", r"\bnative_decide\b", r"\bimplemented_by\b",
              r"\bunsafe\s", r"maxHeartbeats\s+0\b", r"\bbv_decide\b"]
 ENV = dict(os.environ, CARGO_NET_OFFLINE="true")
+# The registered checks always run against /repo.  For mutation experiments TBX_REPO=<worktree> runs the
+# same check against a scratch worktree (a private copy of the harness crate with the path dependency
+# rewritten, its own cargo target directory) so that /repo itself is never edited.
+REPO = os.path.abspath(os.environ.get("TBX_REPO", "/repo"))
+if REPO != "/repo":
+    _h = hashlib.sha1(REPO.encode()).hexdigest()[:10]
+    _alt = os.path.join(BUILD, "alt", _h)
+    os.makedirs(_alt, exist_ok=True)
+    _hs = os.path.join(_alt, "harness")
+    subprocess.run(["rsync", "-a", "--delete", "--exclude", "target", HARNESS + "/", _hs + "/"], check=True)
+    _ct = open(os.path.join(_hs, "Cargo.toml")).read().replace('path = "/repo"', f'path = "{REPO}"')
+    open(os.path.join(_hs, "Cargo.toml"), "w").write(_ct)
+    _cc = open(os.path.join(_hs, ".cargo", "config.toml")).read().replace("/verif/build/harness-target", os.path.join(_alt, "target"))
+    open(os.path.join(_hs, ".cargo", "config.toml"), "w").write(_cc)
+    HARNESS = _hs
+    TARGET = os.path.join(_alt, "target")
+    REPO_TARGET = os.path.join(_alt, "repo-target")
+else:
+    REPO_TARGET = os.path.join(BUILD, "repo-target")
+ENV["TBX_REPO"] = REPO
 
 
 def log(*a):
@@ -194,9 +214,9 @@ class Check:
             return False
         for b in cfg.get("repo_bins", []):
             rc, out, dt = run(["cargo", "build", "--release", "--offline", "--features", "verif", "--bin", b,
-                               "--target-dir", os.path.join(BUILD, "repo-target"),
+                               "--target-dir", REPO_TARGET,
                                "--config", "profile.release.lto=false", "--config", "profile.release.debug=false"],
-                              cwd="/repo", timeout=3600)
+                              cwd=REPO, timeout=3600)
             if rc != 0:
                 self.broken.append(("repo-bin-build", b, out[-600:]))
                 return False
@@ -217,7 +237,7 @@ class Check:
         n = len(allc)
         frm, bad = 0, 0
         hang_s = self.cfg.get("hang_timeout_s", 30)
-        env = dict(ENV, TBX_REPO_BIN_DIR=os.path.join(BUILD, "repo-target", "release"), TBX_RUN_DIR=self.rundir)
+        env = dict(ENV, TBX_REPO_BIN_DIR=os.path.join(REPO_TARGET, "release"), TBX_RUN_DIR=self.rundir)
         while frm < n:
             prog = out_path + ".progress"
             if os.path.exists(prog):
